@@ -217,6 +217,13 @@ func (x *Exec) callFunction(st *State, fr *Frame, site ssa.Instruction, fn *ssa.
 		x.inlineCall(st, fr, site, fn, args, binds, deferOf, kn, kp)
 		return
 	}
+	if c == nil && fn.Blocks != nil && x.autoInlinable(fr, fn) {
+		// a repository function without a contract (typically a helper introduced by a refactoring):
+		// executed in place, like an anonymous function, and recorded as such
+		x.used["auto-inlined:"+key] = true
+		x.inlineCall(st, fr, site, fn, args, binds, deferOf, kn, kp)
+		return
+	}
 	if c == nil {
 		engineErr("no contract for %s (called from %s)", key, fr.fn)
 	}
@@ -237,6 +244,16 @@ func (x *Exec) callFunction(st *State, fr *Frame, site ssa.Instruction, fn *ssa.
 		}
 	}
 	x.applyContract(st, fr, site, c, env, fn.Signature, args, kn, kp)
+}
+
+// autoInlinable: fn belongs to the repository, and it is not already being executed on this call
+// stack beyond a small inlining depth (recursion is not unrolled).
+func (x *Exec) autoInlinable(fr *Frame, fn *ssa.Function) bool {
+	tp := typesPkgOf(fn)
+	if tp == nil || !strings.HasPrefix(tp.Path(), "github.com/go-netty/") {
+		return false
+	}
+	return fr.fn != fn && fr.depth < 6
 }
 
 // pureApp is the application of the uninterpreted function standing for a
